@@ -5,8 +5,8 @@ from . import _func, _loss
 def run(tier, seed):
     q = tier == "quick"
     return _func.run(
-        "C04", tier, seed, emitters=[("MC_Loss", _loss.MC % ("C04", 8), "MC_Loss_C04")], extras=lambda s: [],
-        prepare=_loss.prepare(500 if q else 0), sig=_loss.sig,
+        "C04", tier, seed, emitters=[("MC_Loss", _loss.MC % ("C11L", 8), "MC_Loss_C04_spinn"), ("MC_Loss", _loss.MC % ("C04", 8), "MC_Loss_C04")], extras=lambda s: [],
+        prepare=_loss.prepare_filtered(('dirichlet', 'neumann'), 500 if q else 0), sig=_loss.sig,
         rule="TLC enumerates dim 1,2 x stationary/non-stationary x global / per-facet specification x EVERY assignment of {none, dirichlet, "
              "neumann} to the facets x zero / non-zero f x scalar / length-one-array return x outputs and component selection x border "
              "batch sizes x 1..2 time points; networks have normal derivatives of different sign and size on every facet; expected value "
